@@ -186,6 +186,13 @@ def run_enum(shard: dict, res: Res) -> None:
                     for v in VALUES:
                         stmt = render(m, shape, suffix, vtext_of(v), case)
                         judge(res, supported, m, shape, suffix, v, stmt, f"*=0x008000\n{stmt}\n", key_of(m, shape, suffix, v), True)
+        # the width of an unsuffixed operand follows the value that is emitted, also when the name had another value earlier
+        for shape in ("imm", "dir", "dir_x"):
+            for first, second in ((0x10, 0x1234), (0x1234, 0x10), (0xFFFF, 0x10000), (0xFF, 0x100)):
+                stmt = render(m, shape, "", "zlate", "lower")
+                src = f"*=0x008000\nzlate := {first:#x}\nzlate = {second:#x}\n{stmt}\n"
+                judge(res, supported, m, shape, "", second, stmt, src, None, True)
+                res.count("late_symbol_cases")
         # an instruction's bytes do not depend on the statements before it (no implicit register-width state)
         if (m, "imm") in isa.MATRIX:
             for prefix, pbytes in (("rep #0x20", "c220"), ("rep #0x10", "c210"), ("rep #0x30", "c230"), ("sep #0x30", "e230"), ("rep #0x30\nsep #0x20", "c230e220")):
